@@ -226,10 +226,37 @@ def framePlan (nec : Nat) : P FramePlan := do
           pure ({ x, y, blend } : PatchTgt))
         pure ({ ref, x0, y0, w, h, targets } : PatchSpec))
     | _ => pure [])
+  -- optional: `splines QA NS { X Y NP {DX DY}*NP {coeff}*128 }*NS` (coefficients: 3 x 32 colour, then 32 sigma)
+  let splines ← (do
+    let st ← get
+    match st with
+    | "splines" :: _ => do
+      let _ ← tok
+      let qa ← int
+      let ns ← nat
+      let sp ← rep ns (do
+        let x ← int
+        let y ← int
+        let np ← nat
+        let deltas ← rep np (do let a ← int; let b ← int; pure (a, b))
+        let cs ← rep 128 int
+        pure ({ start := (x, y), deltas, xyb := [cs.take 32, (cs.drop 32).take 32, (cs.drop 64).take 32],
+                sigma := cs.drop 96 } : SplineSpec))
+      pure (some (qa, sp))
+    | _ => pure none)
+  -- optional: `noise L0 .. L7` (10-bit LUT entries)
+  let noise ← (do
+    let st ← get
+    match st with
+    | "noise" :: _ => do
+      let _ ← tok
+      let l ← rep 8 nat
+      pure (some l)
+    | _ => pure none)
   kw "chans"
   let nc ← nat
   let chans ← rep nc chan
-  pure { hdr := { patches, ty, upsampling := ups, ecUpsampling := ecups, groupShift := gshift, haveCrop, x0, y0, w, h,
+  pure { hdr := { patches, splines, noise, ty, upsampling := ups, ecUpsampling := ecups, groupShift := gshift, haveCrop, x0, y0, w, h,
                   blend := b, ecBlend := ecb, duration := dur, isLast, saveAsRef := saveRef, saveBeforeCt := sbct, gab, epfIters := epf },
          chans, transforms := ts, pals, tree := t, wp, coded, ent, tocSeed }
 
